@@ -13,7 +13,7 @@ use crate::session::{shape_string, Session};
 
 pub fn plan(tier: &str) -> u64 {
     match tier {
-        "quick" => 64,
+        "quick" => 160,
         _ => 600,
     }
 }
